@@ -33,6 +33,10 @@ CONSTANTS Depth,      \* 2: chains of one edge, 3: chains of two edges
           Family,     \* "chain" | "lambda" | "single"
           Stride, Offset,   \* depth-3 sampling: keep chain number k iff k % Stride = Offset
           Domain,     \* "all" | "clean" | "defect"
+          Fixed,      \* proposed repairs (q..v, not in /repo yet) that are part of the baseline: flags of the
+                      \* findings.d entries with status "fixed"
+          Reverted,   \* MODEL-ONLY regression domain: repairs committed in /repo (a..h, p) switched back to the old
+                      \* behaviour; {} = the code of /repo.  TLC must still exhibit each old defect there (OldDefectGone).
           Emit
 
 VARIABLES top,        \* where the expression is stored: "value" | "annotation"
@@ -115,6 +119,7 @@ Tmpl(s, lv) ==
     [] s = "SubSliceS" -> N("Subscript", "", <<V(lv, 1), N("Slice", "s", <<V(lv, 2)>>)>>)
     [] s = "SubSliceTuple" -> N("Subscript", "", <<V(lv, 1), N("Tuple", "", <<N("Slice", "l", <<V(lv, 2)>>), V(lv, 3)>>)>>)
     [] s = "SubLiteral" -> N("Subscript", "", <<Nm("Literal"), V(lv, 2)>>)
+    [] s = "SubLiteralSub" -> N("Subscript", "", <<Nm("Literal"), N("Subscript", "", <<V(lv, 1), V(lv, 2)>>)>>)   \* Literal[a[b]]
     [] s = "SubLiteral2" -> N("Subscript", "", <<N("Attribute", "Literal", <<Nm("t")>>), N("Tuple", "", <<V(lv, 2), N("Const", "strbad", <<>>)>>)>>)
     [] s = "Tuple" -> N("Tuple", "", <<V(lv, 1), V(lv, 2)>>)
     [] s = "Tuple1" -> N("Tuple", "", <<V(lv, 1)>>)
@@ -148,7 +153,7 @@ Slots == [
   Subscript |-> << <<1>>, <<2>> >>, SubTuple |-> << <<2, 1>>, <<2, 2>> >>, SubStar |-> << <<2, 1, 1>> >>,
   SubSlice |-> << <<2, 1>>, <<2, 2>>, <<2, 3>> >>, SubSliceU |-> << <<2, 1>> >>, SubSliceS |-> << <<2, 1>> >>,
   SubSliceTuple |-> << <<2, 1, 1>>, <<2, 2>> >>,
-  SubLiteral |-> << <<2>> >>, SubLiteral2 |-> << <<2, 1>> >>,
+  SubLiteral |-> << <<2>> >>, SubLiteral2 |-> << <<2, 1>> >>, SubLiteralSub |-> << <<2, 2>> >>,
   Tuple |-> << <<1>>, <<2>> >>, Tuple1 |-> << <<1>> >>, TupleStar |-> << <<1, 1>> >>,
   Not |-> << <<1>> >>, USub |-> << <<1>> >>, Invert |-> << <<1>> >>, UAdd |-> << <<1>> >>,
   Yield |-> << <<1>> >>, YieldFrom |-> << <<1>> >> ]
@@ -191,9 +196,32 @@ IsLiteralExpr(e) ==      \* left.canonical_path in {"typing.Literal", "typing_ex
   \/ e.c = "ExprAttribute" /\ Len(e.kids) = 2 /\ e.kids[1].c = "ExprName" /\ e.kids[1].op = "t"
        /\ e.kids[2].c = "ExprName" /\ e.kids[2].op = "Literal"
 
+\* ---- repairs.  a..h, p are commits of /repo: they ARE the transcribed code (Has = TRUE unless reverted in the
+\* model-only regression domain); q..v are proposed_fixes/C03-<letter>-*.diff, in effect once their finding is "fixed".
+Applied == {"a", "b", "c", "d", "e", "f", "g", "h", "p"}
+Has(x) == IF x \in Applied THEN x \notin Reverted ELSE x \in Fixed
+FixDictCompSpace == Has("a")     \* e0077b0 ExprDictComp.iterate yields " " before the generators
+FixDictUnpack    == Has("b")     \* d7f44f0 ExprDict.iterate renders a None key as `**value`
+FixEmptyTuple    == Has("c")     \* 3acf20f ExprTuple.iterate: an empty tuple is never implicit
+FixIntAttribute  == Has("d")     \* cf76df5 ExprAttribute.iterate parenthesises an integer literal
+FixConversion    == Has("e")     \* 8eff3df ExprFormatted.conversion is stored and rendered
+FixFormatSpec    == Has("f")     \* 902db3f ExprFormatted.format_spec is built and rendered
+FixSubscriptLeak == Has("g")     \* 312e751 _build drops in_subscript unless the node is a Tuple or a Constant
+FixFormattedLeak == Has("h")     \* 9caea49 _build_joinedstr drops in_formatted_str
+FixPrecedence    == Has("p")     \* 45499eb iterate methods parenthesise operands by precedence (_operand)
+FixUnpackParens  == Has("q")     \* ExprDict.iterate: _operand(value, _BOR) after `**`
+FixGenExpParens  == Has("r")     \* ExprGeneratorExp.iterate yields its own parentheses; they are the call's when it is the sole argument
+FixYieldParens   == Has("s")     \* _yield wraps a nested ExprYield / ExprYieldFrom in parentheses
+FixFieldParens   == Has("t")     \* ExprFormatted.iterate: _operand(value, _OR) (lambda / conditional, as ast.unparse)
+FixFieldBrace    == Has("u")     \* ExprFormatted.iterate: a space before a value that starts with `{`
+FixTextEscape    == Has("v")     \* ExprJoinedStr.iterate escapes quotes, backslashes and braces of literal text
+
 RECURSIVE Build(_, _)
+RECURSIVE BuildNode(_, _)
 BuildAll(kids, env) == [i \in 1..Len(kids) |-> Build(kids[i], env)]
-Build(n, env) ==
+Build(n, env) ==         \* _build: dispatch on the node type (repair g: the flag only reaches the slice itself)
+  BuildNode(n, IF FixSubscriptLeak /\ n.t \notin {"Tuple", "Const"} THEN [env EXCEPT !.S = FALSE] ELSE env)
+BuildNode(n, env) ==
   CASE n.t = "Name" -> X("ExprName", n.op, <<>>)                                  \* _build_name
     [] n.t = "Const" ->                                                             \* _build_constant(in_formatted_str, in_joined_str, parse_strings, literal_strings, **kwargs)
          IF n.op \notin StrKinds THEN X("lit", n.op, <<>>)                         \*   repr(value) / "..."
@@ -216,10 +244,13 @@ Build(n, env) ==
     [] n.t = "Dict" -> X("ExprDict", "", BuildAll(n.kids, env))
     [] n.t = "DictComp" -> X("ExprDictComp", "", BuildAll(n.kids, env))
     [] n.t = "FormattedValue" ->                                                    \* _build_formatted(in_formatted_str, **kwargs): value only;
-         X("ExprFormatted", "", <<Build(n.kids[1], [env EXCEPT !.F = TRUE])>>)     \*   conversion and format_spec are not looked at
+         X("ExprFormatted", IF FixConversion THEN n.op ELSE "",                      \*   conversion and format_spec are not looked at (repairs e, f)
+           <<Build(n.kids[1], [env EXCEPT !.F = TRUE])>>
+           \o (IF FixFormatSpec /\ Len(n.kids) = 2 THEN <<Build(n.kids[2], [env EXCEPT !.F = FALSE])>> ELSE <<>>))
     [] n.t = "GeneratorExp" -> X("ExprGeneratorExp", "", BuildAll(n.kids, env))
     [] n.t = "IfExp" -> X("ExprIfExp", "", BuildAll(n.kids, env))
-    [] n.t = "JoinedStr" -> X("ExprJoinedStr", "", BuildAll(n.kids, [env EXCEPT !.J = TRUE]))   \* _build_joinedstr(in_joined_str, **kwargs)
+    [] n.t = "JoinedStr" ->                                                         \* _build_joinedstr(in_joined_str, **kwargs)
+         X("ExprJoinedStr", "", BuildAll(n.kids, IF FixFormattedLeak THEN [env EXCEPT !.J = TRUE, !.F = FALSE] ELSE [env EXCEPT !.J = TRUE]))
     [] n.t = "Lambda" ->                                                            \* _build_lambda: defaults through safe_get_expression(parse_strings=False): fresh flags
          [X("ExprLambda", "", [i \in 1..Len(n.kids) |-> IF i = 1 THEN Build(n.kids[1], env)
                                                          ELSE Build(n.kids[i], Env(FALSE, FALSE, FALSE, FALSE, FALSE))])
@@ -250,13 +281,57 @@ Build(n, env) ==
 \* groups (ExprNamedExpr / explicit ExprTuple), <<"e", expr>> a sub-expression (flat = FALSE only).
 \* ================================================================================================
 T(s) == <<"s", s>>
+BinLevel(op) == CASE op = "|" -> 9 [] op = "^" -> 10 [] op = "&" -> 11 [] op \in {"<<", ">>"} -> 12 [] op \in {"+", "-"} -> 13
+                  [] op \in {"*", "/", "//", "%", "@"} -> 14 [] op = "**" -> 16
+\* repair p: _precedence(element) and the level each iterate passes to _operand(element, level) (0: plain _yield)
+RECURSIVE ImplPrec(_)
+ImplPrec(x) == CASE x.c = "Parsed" -> ImplPrec(x.kids[1])
+                 [] x.c = "ExprBinOp" -> BinLevel(x.op)
+                 [] x.c = "ExprUnaryOp" -> IF x.op = "not" THEN 7 ELSE 15
+                 [] x.c = "ExprBoolOp" -> IF x.op = "or" THEN 5 ELSE 6
+                 [] x.c = "ExprCompare" -> 8
+                 [] x.c \in {"ExprIfExp", "ExprLambda"} -> 4
+                 [] OTHER -> 18
+Lvl(e, i) ==
+  IF ~FixPrecedence THEN 0 ELSE
+  CASE e.c = "ExprAttribute" -> IF i = 1 THEN 18 ELSE 0
+    [] e.c = "ExprBinOp" -> IF e.op = "**" THEN (IF i = 1 THEN 17 ELSE 15) ELSE BinLevel(e.op) + (IF i = 1 THEN 0 ELSE 1)
+    [] e.c = "ExprBoolOp" -> IF e.op = "or" THEN 6 ELSE 7
+    [] e.c = "ExprCall" -> IF i = 1 THEN 18 ELSE 0
+    [] e.c = "ExprCompare" -> 9
+    [] e.c = "ExprComprehension" -> IF i >= 2 THEN 5 ELSE 0
+    [] e.c = "ExprIfExp" -> IF i <= 2 THEN 5 ELSE 0
+    [] e.c = "ExprDict" -> IF FixUnpackParens /\ i % 2 = 0 /\ e.kids[i - 1].c = "NoneKey" THEN 9 ELSE 0
+    [] e.c = "ExprFormatted" -> IF FixFieldParens /\ i = 1 THEN 5 ELSE 0
+    [] e.c = "ExprVarPositional" -> 9
+    [] e.c = "ExprSubscript" -> IF i = 1 THEN 18 ELSE 0
+    [] e.c = "ExprUnaryOp" -> IF e.op = "not" THEN 7 ELSE 15
+    [] OTHER -> 0
+Wrapped(e, i) ==         \* the parent's iterate puts kid i between parentheses
+  \/ ImplPrec(e.kids[i]) < Lvl(e, i)
+  \/ FixIntAttribute /\ e.c = "ExprAttribute" /\ i = 1 /\ e.kids[1].c = "lit" /\ e.kids[1].op = "int"     \* repair d
 RECURSIVE Iterate(_, _)
 RECURSIVE JoinIt(_, _, _)
-Yield_(x, flat) == IF flat THEN Iterate(x, TRUE) ELSE << <<"e", x>> >>          \* _yield on an Expr (strings are items already)
+RECURSIVE JoinKids(_, _, _, _, _)
+RECURSIVE IsYieldExpr(_)
+IsYieldExpr(x) == IF x.c = "Parsed" THEN IsYieldExpr(x.kids[1]) ELSE x.c \in {"ExprYield", "ExprYieldFrom"}
+YieldRaw(x, flat) == IF flat THEN Iterate(x, TRUE) ELSE << <<"e", x>> >>
+Yield_(x, flat) ==                                                               \* _yield on an Expr (strings are items already)
+  IF FixYieldParens /\ IsYieldExpr(x) THEN << <<"g", "(">> >> \o YieldRaw(x, flat) \o << <<"g", ")">> >> ELSE YieldRaw(x, flat)
 JoinIt(xs, joint, flat) ==                                                        \* _join
   IF xs = <<>> THEN <<>>
   ELSE IF Len(xs) = 1 THEN Yield_(xs[1], flat)
   ELSE Yield_(xs[1], flat) \o joint \o JoinIt(Tail(xs), joint, flat)
+Kid(e, i, flat) == IF Wrapped(e, i) THEN << <<"g", "(">> >> \o Yield_(e.kids[i], flat) \o << <<"g", ")">> >> ELSE Yield_(e.kids[i], flat)
+JoinKids(e, from, to, joint, flat) ==
+  IF from > to THEN <<>> ELSE Kid(e, from, flat) \o (IF from < to THEN joint ELSE <<>>) \o JoinKids(e, from + 1, to, joint, flat)
+GenInner(e, flat) == Kid(e, 1, flat) \o <<T(" ")>> \o JoinKids(e, 2, Len(e.kids), <<T(" ")>>, flat)     \* element and generators of an ExprGeneratorExp
+StartsWithBrace(e) == LET v == Kid(e, 1, TRUE) IN Len(v) > 0 /\ v[1] = T("{")                         \* str(value) of an ExprFormatted starts with `{`
+RECURSIVE FParts(_, _, _)
+FParts(e, i, flat) ==     \* the values of an ExprJoinedStr; repair v: literal text is escaped ("tq") when it has something to escape
+  IF i > Len(e.kids) THEN <<>>
+  ELSE (IF e.kids[i].c = "raw" THEN << <<IF FixTextEscape /\ e.kids[i].op \in {"fquote", "fbrace"} THEN "tq" ELSE "t", e.kids[i].op>> >>
+        ELSE Kid(e, i, flat)) \o FParts(e, i + 1, flat)
 
 RECURSIVE LambdaParams(_, _, _, _, _, _, _)
 LambdaParams(e, i, posOnly, posOrKw, kwOnly, flat, acc) ==                        \* the loop of ExprLambda.iterate
@@ -267,23 +342,25 @@ LambdaParams(e, i, posOnly, posOrKw, kwOnly, flat, acc) ==                      
            m2 == IF p.kind = "var" THEN <<T("*")>>
                  ELSE IF p.kind = "varkw" THEN <<T("**")>>
                  ELSE IF p.kind = "kwo" /\ ~kwOnly THEN <<T("*, ")>> ELSE <<>>
-           d == IF p.d # 0 /\ p.kind \notin {"var", "varkw"} THEN <<T("=")>> \o Yield_(e.kids[p.d], flat) ELSE <<>>
+           d == IF p.d # 0 /\ p.kind \notin {"var", "varkw"} THEN <<T("=")>> \o Kid(e, p.d, flat) ELSE <<>>
            sep == IF i < Len(e.ps) THEN <<T(", ")>> ELSE <<>>
        IN LambdaParams(e, i + 1, IF p.kind = "pos" THEN TRUE ELSE po1,
                        posOrKw \/ (p.kind = "arg"), kwOnly \/ (p.kind \in {"var", "kwo"}), flat,
                        acc \o m1 \o m2 \o <<T(p.name)>> \o d \o sep)
 
 RECURSIVE DictItems(_, _, _)
-DictItems(kids, i, flat) ==
-  IF i > Len(kids) THEN <<>>
+DictItems(e, i, flat) ==
+  IF i > Len(e.kids) THEN <<>>
   ELSE (IF i > 1 THEN <<T(", ")>> ELSE <<>>)
-       \o (IF kids[i].c = "NoneKey" THEN <<T("None")>> ELSE Yield_(kids[i], flat)) \o <<T(": ")>> \o Yield_(kids[i + 1], flat)
-       \o DictItems(kids, i + 2, flat)
+       \o (IF e.kids[i].c = "NoneKey" THEN (IF FixDictUnpack THEN <<T("**")>> ELSE <<T("None"), T(": ")>>)      \* repair b
+           ELSE Kid(e, i, flat) \o <<T(": ")>>)
+       \o Kid(e, i + 1, flat)
+       \o DictItems(e, i + 2, flat)
 
 RECURSIVE CompareItems(_, _, _, _)
 CompareItems(e, i, flat, first) ==                                               \* _join(zip_longest(operators, [], comparators, fillvalue=" "), " ")
   IF i > Len(e.kids) THEN <<>>
-  ELSE (IF first THEN <<>> ELSE <<T(" ")>>) \o <<T(e.op), T(" ")>> \o Yield_(e.kids[i], flat) \o CompareItems(e, i + 1, flat, FALSE)
+  ELSE (IF first THEN <<>> ELSE <<T(" ")>>) \o <<T(e.op), T(" ")>> \o Kid(e, i, flat) \o CompareItems(e, i + 1, flat, FALSE)
 
 Iterate(e, flat) ==
   CASE e.c = "ExprName" -> << <<"n", e.op>> >>
@@ -291,42 +368,52 @@ Iterate(e, flat) ==
     [] e.c = "quoted" -> << <<"q", e.op>> >>
     [] e.c = "raw" -> << <<"t", e.op>> >>
     [] e.c = "Parsed" -> Iterate(e.kids[1], flat)            \* the builder returned the expression built from the string itself
-    [] e.c = "ExprAttribute" -> JoinIt(e.kids, <<T(".")>>, flat)
-    [] e.c = "ExprBinOp" -> Yield_(e.kids[1], flat) \o <<T(" "), T(e.op), T(" ")>> \o Yield_(e.kids[2], flat)
-    [] e.c = "ExprBoolOp" -> JoinIt(e.kids, <<T(" "), T(e.op), T(" ")>>, flat)
-    [] e.c = "ExprCall" -> Yield_(e.kids[1], flat) \o <<T("(")>> \o JoinIt(Tail(e.kids), <<T(", ")>>, flat) \o <<T(")")>>
-    [] e.c = "ExprCompare" -> Yield_(e.kids[1], flat) \o <<T(" ")>> \o CompareItems(e, 2, flat, TRUE)
+    [] e.c = "ExprAttribute" -> JoinKids(e, 1, Len(e.kids), <<T(".")>>, flat)
+    [] e.c = "ExprBinOp" -> Kid(e, 1, flat) \o <<T(" "), T(e.op), T(" ")>> \o Kid(e, 2, flat)
+    [] e.c = "ExprBoolOp" -> JoinKids(e, 1, Len(e.kids), <<T(" "), T(e.op), T(" ")>>, flat)
+    [] e.c = "ExprCall" ->
+         IF FixGenExpParens /\ Len(e.kids) = 2 /\ e.kids[2].c = "ExprGeneratorExp"          \* repair r: the generator's parentheses are the call's
+         THEN Kid(e, 1, flat) \o (IF flat THEN <<T("(")>> \o GenInner(e.kids[2], TRUE) \o <<T(")")>> ELSE << <<"e", e.kids[2]>> >>)
+         ELSE Kid(e, 1, flat) \o <<T("(")>> \o JoinKids(e, 2, Len(e.kids), <<T(", ")>>, flat) \o <<T(")")>>
+    [] e.c = "ExprCompare" -> Kid(e, 1, flat) \o <<T(" ")>> \o CompareItems(e, 2, flat, TRUE)
     [] e.c = "ExprComprehension" ->
-         (IF e.op = "async" THEN <<T("async ")>> ELSE <<>>) \o <<T("for ")>> \o Yield_(e.kids[1], flat) \o <<T(" in ")>> \o Yield_(e.kids[2], flat)
-         \o (IF Len(e.kids) > 2 THEN <<T(" if ")>> \o JoinIt(SubSeq(e.kids, 3, Len(e.kids)), <<T(" if ")>>, flat) ELSE <<>>)
-    [] e.c = "ExprDict" -> <<T("{")>> \o DictItems(e.kids, 1, flat) \o <<T("}")>>
-    [] e.c = "ExprDictComp" -> <<T("{")>> \o Yield_(e.kids[1], flat) \o <<T(": ")>> \o Yield_(e.kids[2], flat)
-                               \o JoinIt(SubSeq(e.kids, 3, Len(e.kids)), <<T(" ")>>, flat) \o <<T("}")>>      \* no " " before the generators
-    [] e.c = "ExprFormatted" -> <<T("{")>> \o Yield_(e.kids[1], flat) \o <<T("}")>>
-    [] e.c = "ExprGeneratorExp" -> Yield_(e.kids[1], flat) \o <<T(" ")>> \o JoinIt(Tail(e.kids), <<T(" ")>>, flat)
-    [] e.c = "ExprIfExp" -> Yield_(e.kids[1], flat) \o <<T(" if ")>> \o Yield_(e.kids[2], flat) \o <<T(" else ")>> \o Yield_(e.kids[3], flat)
-    [] e.c = "ExprJoinedStr" -> <<T("f'")>> \o JoinIt(e.kids, <<>>, flat) \o <<T("'")>>
-    [] e.c = "ExprKeyword" -> <<T(e.op), T("=")>> \o Yield_(e.kids[1], flat)
-    [] e.c = "ExprVarPositional" -> <<T("*")>> \o Yield_(e.kids[1], flat)
-    [] e.c = "ExprVarKeyword" -> <<T("**")>> \o Yield_(e.kids[1], flat)
+         (IF e.op = "async" THEN <<T("async ")>> ELSE <<>>) \o <<T("for ")>> \o Kid(e, 1, flat) \o <<T(" in ")>> \o Kid(e, 2, flat)
+         \o (IF Len(e.kids) > 2 THEN <<T(" if ")>> \o JoinKids(e, 3, Len(e.kids), <<T(" if ")>>, flat) ELSE <<>>)
+    [] e.c = "ExprDict" -> <<T("{")>> \o DictItems(e, 1, flat) \o <<T("}")>>
+    [] e.c = "ExprDictComp" -> <<T("{")>> \o Kid(e, 1, flat) \o <<T(": ")>> \o Kid(e, 2, flat) \o (IF FixDictCompSpace THEN <<T(" ")>> ELSE <<>>)   \* repair a
+                               \o JoinKids(e, 3, Len(e.kids), <<T(" ")>>, flat) \o <<T("}")>>      \* no " " before the generators
+    [] e.c = "ExprFormatted" -> <<T("{")>>
+                                \o (IF FixFieldBrace /\ StartsWithBrace(e) THEN << <<"g", " ">> >> ELSE <<>>)                  \* repair u
+                                \o Kid(e, 1, flat)
+                                \o (IF e.op # "" THEN <<T("!"), T(e.op)>> ELSE <<>>)                                            \* repair e
+                                \o (IF Len(e.kids) = 2 THEN <<T(":")>> \o JoinIt(e.kids[2].kids, <<>>, flat) ELSE <<>>)         \* repair f
+                                \o <<T("}")>>
+    [] e.c = "ExprGeneratorExp" -> IF FixGenExpParens THEN << <<"g", "(">> >> \o GenInner(e, flat) \o << <<"g", ")">> >> ELSE GenInner(e, flat)
+    [] e.c = "ExprIfExp" -> Kid(e, 1, flat) \o <<T(" if ")>> \o Kid(e, 2, flat) \o <<T(" else ")>> \o Kid(e, 3, flat)
+    [] e.c = "ExprJoinedStr" -> <<T("f'")>> \o FParts(e, 1, flat) \o <<T("'")>>
+    [] e.c = "ExprKeyword" -> <<T(e.op), T("=")>> \o Kid(e, 1, flat)
+    [] e.c = "ExprVarPositional" -> <<T("*")>> \o Kid(e, 1, flat)
+    [] e.c = "ExprVarKeyword" -> <<T("**")>> \o Kid(e, 1, flat)
     [] e.c = "ExprLambda" -> <<T("lambda")>> \o (IF Len(e.ps) > 0 THEN <<T(" ")>> ELSE <<>>)
-                             \o LambdaParams(e, 1, FALSE, FALSE, FALSE, flat, <<>>) \o <<T(": ")>> \o Yield_(e.kids[1], flat)
-    [] e.c = "ExprList" -> <<T("[")>> \o JoinIt(e.kids, <<T(", ")>>, flat) \o <<T("]")>>
-    [] e.c = "ExprListComp" -> <<T("[")>> \o Yield_(e.kids[1], flat) \o <<T(" ")>> \o JoinIt(Tail(e.kids), <<T(" ")>>, flat) \o <<T("]")>>
-    [] e.c = "ExprNamedExpr" -> << <<"g", "(">> >> \o Yield_(e.kids[1], flat) \o <<T(" := ")>> \o Yield_(e.kids[2], flat) \o << <<"g", ")">> >>
-    [] e.c = "ExprSet" -> <<T("{")>> \o JoinIt(e.kids, <<T(", ")>>, flat) \o <<T("}")>>
-    [] e.c = "ExprSetComp" -> <<T("{")>> \o Yield_(e.kids[1], flat) \o <<T(" ")>> \o JoinIt(Tail(e.kids), <<T(" ")>>, flat) \o <<T("}")>>
+                             \o LambdaParams(e, 1, FALSE, FALSE, FALSE, flat, <<>>) \o <<T(": ")>> \o Kid(e, 1, flat)
+    [] e.c = "ExprList" -> <<T("[")>> \o JoinKids(e, 1, Len(e.kids), <<T(", ")>>, flat) \o <<T("]")>>
+    [] e.c = "ExprListComp" -> <<T("[")>> \o Kid(e, 1, flat) \o <<T(" ")>> \o JoinKids(e, 2, Len(e.kids), <<T(" ")>>, flat) \o <<T("]")>>
+    [] e.c = "ExprNamedExpr" -> << <<"g", "(">> >> \o Kid(e, 1, flat) \o <<T(" := ")>> \o Kid(e, 2, flat) \o << <<"g", ")">> >>
+    [] e.c = "ExprSet" -> <<T("{")>> \o JoinKids(e, 1, Len(e.kids), <<T(", ")>>, flat) \o <<T("}")>>
+    [] e.c = "ExprSetComp" -> <<T("{")>> \o Kid(e, 1, flat) \o <<T(" ")>> \o JoinKids(e, 2, Len(e.kids), <<T(" ")>>, flat) \o <<T("}")>>
     [] e.c = "ExprSlice" ->      \* op = which of lower/upper/step are present
          LET hasL == e.op \in {"l", "lu", "ls", "lus"}   hasU == e.op \in {"u", "lu", "us", "lus"}   hasS == e.op \in {"s", "ls", "us", "lus"}
              iu == IF hasL THEN 2 ELSE 1   is == iu + (IF hasU THEN 1 ELSE 0)
-         IN (IF hasL THEN Yield_(e.kids[1], flat) ELSE <<>>) \o <<T(":")>> \o (IF hasU THEN Yield_(e.kids[iu], flat) ELSE <<>>)
-            \o (IF hasS THEN <<T(":")>> \o Yield_(e.kids[is], flat) ELSE <<>>)
-    [] e.c = "ExprSubscript" -> Yield_(e.kids[1], flat) \o <<T("[")>> \o Yield_(e.kids[2], flat) \o <<T("]")>>
-    [] e.c = "ExprTuple" -> (IF e.imp THEN <<>> ELSE << <<"g", "(">> >>) \o JoinIt(e.kids, <<T(", ")>>, flat)
-                            \o (IF Len(e.kids) = 1 THEN <<T(",")>> ELSE <<>>) \o (IF e.imp THEN <<>> ELSE << <<"g", ")">> >>)
-    [] e.c = "ExprUnaryOp" -> <<T(IF e.op = "not" THEN "not " ELSE e.op)>> \o Yield_(e.kids[1], flat)
-    [] e.c = "ExprYield" -> <<T("yield")>> \o (IF Len(e.kids) = 1 THEN <<T(" ")>> \o Yield_(e.kids[1], flat) ELSE <<>>)
-    [] e.c = "ExprYieldFrom" -> <<T("yield from ")>> \o Yield_(e.kids[1], flat)
+         IN (IF hasL THEN Kid(e, 1, flat) ELSE <<>>) \o <<T(":")>> \o (IF hasU THEN Kid(e, iu, flat) ELSE <<>>)
+            \o (IF hasS THEN <<T(":")>> \o Kid(e, is, flat) ELSE <<>>)
+    [] e.c = "ExprSubscript" -> Kid(e, 1, flat) \o <<T("[")>> \o Kid(e, 2, flat) \o <<T("]")>>
+    [] e.c = "ExprTuple" ->
+         LET bare == e.imp /\ ~(FixEmptyTuple /\ e.kids = <<>>) IN                                                               \* repair c
+         (IF bare THEN <<>> ELSE << <<"g", "(">> >>) \o JoinKids(e, 1, Len(e.kids), <<T(", ")>>, flat)
+         \o (IF Len(e.kids) = 1 THEN <<T(",")>> ELSE <<>>) \o (IF bare THEN <<>> ELSE << <<"g", ")">> >>)
+    [] e.c = "ExprUnaryOp" -> <<T(IF e.op = "not" THEN "not " ELSE e.op)>> \o Kid(e, 1, flat)
+    [] e.c = "ExprYield" -> <<T("yield")>> \o (IF Len(e.kids) = 1 THEN <<T(" ")>> \o Kid(e, 1, flat) ELSE <<>>)
+    [] e.c = "ExprYieldFrom" -> <<T("yield from ")>> \o Kid(e, 1, flat)
 
 RECURSIVE Expand(_)
 Expand(items) ==      \* recursive expansion of a first-layer iteration
@@ -344,8 +431,6 @@ Req(min, named, tuple, yield, gen, starmin) ==
   [min |-> min, named |-> named, tuple |-> tuple, yield |-> yield, gen |-> gen, starmin |-> starmin,
    sub |-> FALSE, noint |-> FALSE, nolambda |-> FALSE, paren |-> FALSE]
 Q(min) == Req(min, FALSE, FALSE, FALSE, FALSE, 0)
-BinLevel(op) == CASE op = "|" -> 9 [] op = "^" -> 10 [] op = "&" -> 11 [] op \in {"<<", ">>"} -> 12 [] op \in {"+", "-"} -> 13
-                  [] op \in {"*", "/", "//", "%", "@"} -> 14 [] op = "**" -> 16
 Helper == {"keyword", "comprehension", "NoKey", "FormattedValue", "Slice", "Starred"}
 Prec(n) == CASE n.t = "BinOp" -> BinLevel(n.op)
              [] n.t = "UnaryOp" -> IF n.op = "not" THEN 7 ELSE 15
@@ -440,12 +525,16 @@ ShouldParse(n, ty, lit) == P0 /\ ty /\ ~lit
 \* alignment of the built expression with the ast node (ExprAttribute is a flattened chain)
 KidExpr(n, e, i) == IF e.c = "none" THEN e ELSE IF n.t = "Attribute" /\ e.c = "ExprAttribute" /\ Len(e.kids) > 2
                     THEN [e EXCEPT !.kids = SubSeq(e.kids, 1, Len(e.kids) - 1)] ELSE e.kids[i]
-Grouped(e) == e.c = "ExprNamedExpr" \/ (e.c = "ExprTuple" /\ ~e.imp)
+Grouped(e) == \/ e.c = "ExprNamedExpr" \/ (e.c = "ExprTuple" /\ (~e.imp \/ (FixEmptyTuple /\ e.kids = <<>>)))
+              \/ (FixGenExpParens /\ e.c = "ExprGeneratorExp")
 IsStrNode(n) == n.t = "Const" /\ n.op = "str"
 
 ParenReq == [Req(1, TRUE, TRUE, TRUE, TRUE, 0) EXCEPT !.paren = TRUE]      \* inside ( ... ) everything is accepted
-Ctx(ty, lit, instr) == [ty |-> ty, lit |-> lit, instr |-> instr]
-KidCtx(n, i, cx) == IF IsStrNode(n) THEN Ctx(cx.ty, FALSE, TRUE) ELSE Ctx(KidTy(n, i, cx.ty), KidLit(n, i, cx.lit), cx.instr)
+Ctx(ty, lit, instr) == [ty |-> ty, lit |-> lit, instr |-> instr, inspec |-> FALSE]
+KidCtx(n, i, cx) ==      \* inspec: a replacement field of a format spec (`{{` is not an escape there)
+  IF IsStrNode(n) THEN Ctx(cx.ty, FALSE, TRUE)
+  ELSE [Ctx(KidTy(n, i, cx.ty), KidLit(n, i, cx.lit), cx.instr)
+          EXCEPT !.inspec = IF n.t = "FormattedValue" THEN i = 2 ELSE IF n.t = "JoinedStr" THEN cx.inspec ELSE FALSE]
 Me(n, pt) == IF n.t \in Helper THEN [pt EXCEPT !.via = n.t] ELSE IF IsStrNode(n) THEN pt ELSE [t |-> n.t, c |-> PClass(n), lvl |-> Prec(n), via |-> ""]
 TopPt == [t |-> "Top", c |-> "", lvl |-> 0, via |-> ""]
 
@@ -516,7 +605,7 @@ Bare(n, e, r) ==
          LET v == K(1) IN
          <<T("{")>> \o (IF v[1] = T("{") THEN G(" ") ELSE <<>>) \o v      \* `{ {` : a separator that only disambiguates, like a parenthesis
          \o (IF n.op # "" THEN <<T("!"), T(n.op)>> ELSE <<>>)
-         \o (IF Len(n.kids) = 2 THEN <<T(":")>> \o RefFParts(n.kids[2], NoExpr, r, 1) ELSE <<>>) \o <<T("}")>>
+         \o (IF Len(n.kids) = 2 THEN <<T(":")>> \o RefFParts(n.kids[2], IF e.c # "none" /\ Len(e.kids) = 2 THEN e.kids[2] ELSE NoExpr, r, 1) ELSE <<>>) \o <<T("}")>>
     [] n.t = "GeneratorExp" -> K(1) \o <<T(" ")>> \o RefJoin(n, e, r, 2, Len(n.kids), <<T(" ")>>)
     [] n.t = "IfExp" -> K(1) \o <<T(" if ")>> \o K(2) \o <<T(" else ")>> \o K(3)
     [] n.t = "JoinedStr" -> <<T("f'")>> \o RefFParts(n, e, r, 1) \o <<T("'")>>
@@ -540,8 +629,9 @@ Bare(n, e, r) ==
 \* ---- the walk: every edge of the tree the code actually built (strings it re-parsed are followed) -----------------
 Rec(clause, cause, pt, pos, child, rel) ==      \* sev: "breaks" the property / "cosmetic" (differs from the reference text only)
   [clause |-> clause, cause |-> cause, sev |-> "breaks", parent |-> pt.t, pclass |-> pt.c, via |-> pt.via, pos |-> pos, child |-> child, rel |-> rel]
-RECURSIVE Walk(_, _, _, _, _, _)
-Walk(n, e, req, pt, pos, cx) ==     \* set of defect records at and below n; (pt, pos): parent and slot of n
+RECURSIVE Walk(_, _, _, _, _, _, _)
+Walk(n, e, req, pt, pos, cx, w) ==  \* set of defect records at and below n; (pt, pos): parent and slot of n;
+                                    \* w: the parent's iterate already wraps this operand in parentheses (repairs d, p)
   LET sp == ShouldParse(n, cx.ty, cx.lit)
       here ==
         IF IsStrNode(n) THEN
@@ -551,7 +641,7 @@ Walk(n, e, req, pt, pos, cx) ==     \* set of defect records at and below n; (pt
             ELSE IF e.c # "Parsed" /\ sp
             THEN {Rec("strings", IF cx.instr THEN "nested-string-not-parsed" ELSE "not-parsed", pt, pos, "Const", "")}
             ELSE {})
-        ELSE IF NeedsParens(req, n) /\ ~Grouped(e)
+        ELSE IF NeedsParens(req, n) /\ ~Grouped(e) /\ ~w
         THEN {Rec("grouping",
                   CASE n.t = "Tuple" -> IF Len(n.kids) = 0 /\ req.sub THEN "empty-slice-tuple" ELSE "in_subscript-leak"
                     [] n.t \in {"Yield", "YieldFrom"} -> "bare-yield"
@@ -564,25 +654,28 @@ Walk(n, e, req, pt, pos, cx) ==     \* set of defect records at and below n; (pt
                   ELSE IF req.min >= 17 THEN "primary" ELSE IF pt.lvl = Prec(n) THEN "equal" ELSE "lower")}
         ELSE {}
       text ==
-        CASE n.t = "DictComp" -> {"dictcomp-no-space"}
-          [] n.t = "NoKey" -> {"dict-unpack-none"}
+        CASE n.t = "DictComp" -> IF FixDictCompSpace THEN {} ELSE {"dictcomp-no-space"}
+          [] n.t = "NoKey" -> IF FixDictUnpack THEN {} ELSE {"dict-unpack-none"}
           [] n.t = "FormattedValue" ->
-               (IF n.op # "" THEN {"fstring-conversion-dropped"} ELSE {})
-               \cup (IF Len(n.kids) = 2 THEN {"fstring-format-spec-dropped"} ELSE {})
-               \cup (IF LET v == Iterate(e.kids[1], TRUE) IN Len(v) > 0 /\ v[1] = T("{") THEN {"fstring-brace-start"} ELSE {})     \* what is rendered starts with `{{`
-          [] n.t = "Const" /\ n.op \in {"fquote", "fbrace"} /\ e.c = "raw" -> {"fstring-text-unescaped"}
+               (IF n.op # "" /\ e.op = "" THEN {"fstring-conversion-dropped"} ELSE {})
+               \cup (IF Len(n.kids) = 2 /\ Len(e.kids) = 1 THEN {"fstring-format-spec-dropped"} ELSE {})
+               \cup (IF ~cx.inspec /\ ~FixFieldBrace /\ StartsWithBrace(e) THEN {"fstring-brace-start"} ELSE {})     \* what is rendered starts with `{{`
+          [] n.t = "Const" /\ n.op \in {"fquote", "fbrace"} /\ e.c = "raw" /\ ~FixTextEscape -> {"fstring-text-unescaped"}
           [] n.t = "Const" /\ n.op \in {"ftxt", "fquote", "fbrace", "fspec"} /\ e.c # "raw" -> {"in_formatted_str-leak"}
           [] OTHER -> {}
       lastOfValue == IF n.t = "DictComp" THEN LET v == Iterate(e.kids[2], TRUE) IN (IF Len(v) > 0 THEN v[Len(v)] ELSE <<"s", "">>) ELSE <<"s", "">>
       glued == lastOfValue[1] = "n" \/ lastOfValue = <<"c", "none">> \/ lastOfValue = T("yield")      \* `bfor`, `Nonefor`, `yieldfor`
       textrecs == {[Rec("text", c, [t |-> IF n.t = "NoKey" THEN "Dict" ELSE IF n.t = "Const" THEN "JoinedStr" ELSE n.t, c |-> "", lvl |-> 0, via |-> ""], "", "", "") EXCEPT !.sev = IF c = "dictcomp-no-space" /\ ~glued THEN "cosmetic" ELSE "breaks"] : c \in text}
-      inner == IF IsStrNode(n) THEN req ELSE IF Grouped(e) \/ NeedsParens(req, n) THEN ParenReq ELSE req
+      inner == IF IsStrNode(n) THEN req ELSE IF Grouped(e) \/ w \/ NeedsParens(req, n) THEN ParenReq ELSE req
       kids == IF IsStrNode(n) THEN (IF e.c = "Parsed" THEN {1} ELSE {})
-              ELSE IF n.t = "FormattedValue" THEN {1}                     \* the format spec is never built
+              ELSE IF n.t = "FormattedValue" THEN 1..Len(e.kids)          \* the format spec is never built (unless repair f)
               ELSE 1..Len(n.kids)
+      wkid(i) == IF IsStrNode(n) THEN w                                   \* the content of a re-parsed string sits where the string sat
+                 ELSE IF n.t = "Attribute" /\ e.c = "ExprAttribute" /\ Len(e.kids) > 2 THEN FALSE    \* inner link of a flattened chain
+                 ELSE Wrapped(e, i) \/ (FixYieldParens /\ IsYieldExpr(e.kids[i]))                 \* _operand / _yield
   IN here \cup textrecs \cup
      UNION { Walk(n.kids[i], KidExpr(n, e, i), KidReq(n, i, inner), Me(n, pt),
-                  IF IsStrNode(n) THEN pos ELSE SlotName(n, i), KidCtx(n, i, cx)) : i \in kids }
+                  IF IsStrNode(n) THEN pos ELSE SlotName(n, i), KidCtx(n, i, cx), wkid(i)) : i \in kids }
 
 RECURSIVE NamesOf(_, _)
 RECURSIVE NamesOfKids(_, _, _)
@@ -593,13 +686,14 @@ NamesOf(n, e) ==        \* the names the source refers to, in source order (stri
     [] IsStrNode(n) -> IF e.c = "Parsed" THEN NamesOf(n.kids[1], e.kids[1]) ELSE <<>>
     [] n.t = "Const" -> <<>>
     [] n.t = "Lambda" -> NamesOfKids(n, e, [i \in 1..(Len(n.kids) - 1) |-> i + 1]) \o NamesOf(n.kids[1], KidExpr(n, e, 1))
-    [] n.t = "FormattedValue" -> NamesOf(n.kids[1], KidExpr(n, e, 1)) \o (IF Len(n.kids) = 2 THEN NamesOf(n.kids[2], NoExpr) ELSE <<>>)
+    [] n.t = "FormattedValue" -> NamesOf(n.kids[1], KidExpr(n, e, 1)) \o (IF Len(n.kids) = 2 THEN NamesOf(n.kids[2], IF Len(e.kids) = 2 THEN e.kids[2] ELSE NoExpr) ELSE <<>>)
     [] OTHER -> NamesOfKids(n, e, [i \in 1..Len(n.kids) |-> i])
 
 \* the source with the strings the code re-parsed (ITree) / the property wants parsed (RTree) replaced by their content
 RECURSIVE ITree(_, _)
 ITree(n, e) == IF IsStrNode(n) THEN (IF e.c = "Parsed" THEN ITree(n.kids[1], e.kids[1]) ELSE n)
-               ELSE IF e.c = "none" \/ n.t = "FormattedValue" THEN [n EXCEPT !.kids = [i \in 1..Len(n.kids) |-> IF i = 1 /\ e.c # "none" THEN ITree(n.kids[1], e.kids[1]) ELSE n.kids[i]]]
+               ELSE IF e.c = "none" THEN n
+               ELSE IF n.t = "FormattedValue" THEN [n EXCEPT !.kids = [i \in 1..Len(n.kids) |-> IF i <= Len(e.kids) THEN ITree(n.kids[i], e.kids[i]) ELSE n.kids[i]]]
                ELSE [n EXCEPT !.kids = [i \in 1..Len(n.kids) |-> ITree(n.kids[i], KidExpr(n, e, i))]]
 RECURSIVE RTree(_, _)
 RTree(n, cx) == IF IsStrNode(n) THEN (IF ShouldParse(n, cx.ty, cx.lit) THEN RTree(n.kids[1], KidCtx(n, 1, cx)) ELSE n)
@@ -615,7 +709,7 @@ AllShapes == <<"Name", "Int", "Float", "None", "Ellipsis", "Bytes", "StrName", "
                "Compare", "Compare2", "Dict", "DictUnpack", "DictComp", "GeneratorExp", "ListComp", "SetComp", "ListCompIf", "ListComp2", "IfExp",
                "FStr", "FStrTxt", "FStrQuote", "FStrBrace", "FStrConv", "FStrSpec", "Lambda0", "LambdaDef", "List", "List1", "List0", "ListStar",
                "Set", "SetStar", "NamedExpr", "Subscript", "SubTuple", "SubStar", "SubSlice", "SubSliceU", "SubSliceS", "SubSliceTuple",
-               "SubLiteral", "SubLiteral2", "Tuple", "Tuple1", "Tuple0", "TupleStar", "Not", "USub", "Invert", "UAdd", "Yield0", "Yield", "YieldFrom">>
+               "SubLiteral", "SubLiteral2", "SubLiteralSub", "Tuple", "Tuple1", "Tuple0", "TupleStar", "Not", "USub", "Invert", "UAdd", "Yield0", "Yield", "YieldFrom">>
 PIdx == {i \in 1..Len(AllShapes) : AllShapes[i] \in ParentShapes}
 CIdx == {i \in 1..Len(AllShapes) : AllShapes[i] \in ChildShapes}
 NSlots(s) == Len(SlotsOf(s))
@@ -715,9 +809,9 @@ Judge ==
   /\ pc = "iterated"
   /\ ref' = RefRender(tree, built, TopReq)
   /\ srcnames' = NamesOf(tree, built)
-  /\ bad' = Walk(tree, built, TopReq, TopPt, "top", Ctx(top = "annotation", FALSE, FALSE))
+  /\ bad' = Walk(tree, built, TopReq, TopPt, "top", Ctx(top = "annotation", FALSE, FALSE), FALSE)
             \cup (IF NameTokens(impl) # NamesOf(tree, built)
-                  THEN {Rec("names", IF HasSpec(tree) THEN "fstring-format-spec-dropped" ELSE "unexplained", [TopPt EXCEPT !.t = "FormattedValue"], "", "", "")} ELSE {})
+                  THEN {Rec("names", IF HasSpec(tree) /\ ~FixFormatSpec THEN "fstring-format-spec-dropped" ELSE "unexplained", [TopPt EXCEPT !.t = "FormattedValue"], "", "", "")} ELSE {})
   /\ pc' = "done"
   /\ UNCHANGED <<casevars, built, impl, layer>>
 
@@ -734,10 +828,22 @@ KnownCauses == {"precedence", "bare-genexp", "bare-yield", "in_subscript-leak", 
                 "fstring-text-unescaped", "in_formatted_str-leak", "parsed-outside-type-position", "nested-string-not-parsed"}
 
 \* (iv) flat iteration yields exactly the pieces of the string: expanding the first layer recursively gives the flat one
-FlatIsExpansion == pc \in {"iterated", "done"} => Expand(layer) = impl
+Plain(items) == [i \in 1..Len(items) |-> IF items[i][1] = "g" THEN <<"s", items[i][2]>> ELSE items[i]]    \* a parenthesis is a parenthesis
+FlatIsExpansion == pc \in {"iterated", "done"} => Plain(Expand(layer)) = Plain(impl)
 \* (i)-(v) on the clean domain: parentheses wherever CPython needs them, same text, names, strings
 CleanHolds == (Done /\ Clean) => bad = {}
 NoDefect == Done => bad = {}                       \* expected to be violated outside the clean domain
+\* which repair closes a defect record (vocabulary: the fix flags of findings.d/C03.json)
+FlagOf(b) == CASE b.cause = "precedence" -> IF b.pos = "unpack" THEN "q" ELSE "p"
+               [] b.cause = "dictcomp-no-space" -> "a" [] b.cause = "dict-unpack-none" -> "b" [] b.cause = "empty-slice-tuple" -> "c"
+               [] b.cause = "int-attribute" -> "d" [] b.cause = "fstring-conversion-dropped" -> "e" [] b.cause = "fstring-format-spec-dropped" -> "f"
+               [] b.cause = "in_subscript-leak" -> "g" [] b.cause = "in_formatted_str-leak" -> "h" [] b.cause = "bare-genexp" -> "r"
+               [] b.cause = "bare-yield" -> "s" [] b.cause = "lambda-in-fstring" -> "t" [] b.cause = "fstring-brace-start" -> "u"
+               [] b.cause = "fstring-text-unescaped" -> "v" [] OTHER -> "-"
+\* regression domain (cfg ExprBuild_regress): with a repair reverted in the model TLC must exhibit the old defect again
+OldDefectGone == Done => ~\E b \in bad : FlagOf(b) \in Reverted
+\* and a repair in effect leaves none of its defects (every domain)
+RepairedStaysRepaired == Done => \A b \in bad : ~Has(FlagOf(b)) \/ (FlagOf(b) = "s" /\ b.parent = "Top")
 \* every way the model breaks the property is one of the declared defect classes
 OnlyKnownCauses == Done => \A b \in bad : b.cause \in KnownCauses
 \* the text labels are exactly the differences between what is rendered and the reference, grouping aside
@@ -750,7 +856,7 @@ ImplicitOk(e, direct) == /\ (e.c = "ExprTuple" /\ e.imp) => direct
                          /\ \A i \in 1..Len(e.kids) : ImplicitOk(e.kids[i], e.c = "ExprSubscript" /\ i = 2)
 ImplicitOnlyInSlice == (Done /\ Clean) => ImplicitOk(built, FALSE)
 \* every Name of the source is an ExprName element
-NamesPresent == (Done /\ ~HasSpec(tree)) => NameTokens(impl) = srcnames
+NamesPresent == (Done /\ (FixFormatSpec \/ ~HasSpec(tree))) => NameTokens(impl) = srcnames
 
 EmitCase ==
   (Emit /\ Done) =>
